@@ -77,7 +77,18 @@ def r_hasheq(ctx) -> None:
     operable = prog.cls(f'{SERIES}:Operable')
     eq = prog.func(f'{operable.ref}.__eq__')
     ret = next((s for s in eq.body if isinstance(s, ast.Return)), None)
-    ctx.check(ret is not None and core.src(ret.value).replace(' ', '') == 'Comparison.Pythonic(Equal,self,other)', 'C08.proxy', eq, 'Operable.__eq__ builds the Equal proxy over (self, other)', eq.node, key='Operable.__eq__')
+    o = eq.param_names[1]
+    okp = ret is not None and isinstance(ret.value, ast.Call) and core.src(ret.value.func) == 'Comparison.Pythonic' and [core.src(a) for a in ret.value.args][:2] == ['Equal', 'self'] and len(ret.value.args) == 3 and core.src(ret.value.args[2]) in (o, f'cast({o})')
+    ctx.check(okp, 'C08.proxy', eq, 'Operable.__eq__ builds the Equal proxy over (self, the other operand as given - at most cast to a literal)', eq.node, key='Operable.__eq__')
+    # identity must see the operand itself: a projection applied before the proxy (featurize -> .operable strips an alias) makes
+    # a feature equal to its aliased form
+    decos = core.decorator_names(eq.node)
+    ctx.check(not any(d.split('.')[-1] == 'featurize' for d in decos) and '.operable' not in core.src(eq.node), 'C08.proxy', eq, f'the equality operand is not projected to its operable before the identity decision (decorators {decos})', eq.node, key='Operable.__eq__:raw-operand')
+    mat = prog.func(f'{SERIES}:Comparison.Pythonic.operable')
+    rr = next((r for r in core.walk_local(mat.node) if isinstance(r, ast.Return)), None)
+    ctx.check(rr is not None and core.src(rr.value) in ('self.operator(self.left.operable, self.right.operable)', 'self.operator(self.left, self.right)'), 'C08.proxy', mat, 'the proxy materialises the comparison of its own two operands, in order', mat.node, key='Pythonic.operable')
+    feq = prog.cls(f'{SERIES}:Feature').methods.get('__eq__')
+    ctx.check(feq is not None and {'CLASS', 'TUPLE'} <= _tokens(prog, prog.cls(f'{SERIES}:Feature'), feq), 'C08.proxy', f'{SERIES}:Feature', 'non-operable features (aliased) compare structurally: same class and element-wise tuple equality', key='Feature.__eq__', loc='forml/io/dsl/_struct/series.py')
     for ref in (f'{SERIES}:Comparison.Pythonic.__bool__', f'{SERIES}:Equal.__bool__'):
         fn = prog.func(ref)
         rets = [s for s in core.walk_local(fn.node) if isinstance(s, ast.Return)]
@@ -342,6 +353,30 @@ def r_pickle(ctx) -> None:
         if new.args.kwarg is not None and not new.args.args[1:]:
             ctx.check(ci.lookup('__getnewargs_ex__') is not None or ci.lookup('__reduce__') is not None, 'R-PICKLE', ci.ref, f'{ci.qual}: keyword-only constructor needs __getnewargs_ex__', key=f'{ci.qual}:tuple-getnewargs-ex', loc=f'{ci.module.relpath}:{new.lineno}')
     ctx.floor('R-PICKLE.kinds', m, 3)
+    # values cached on an instance travel with it: functools.cached_property stores into the instance __dict__, which pickle
+    # serialises with a tuple subclass - so whatever a cached property of a DSL class returns must be picklable itself
+    UNPICKLABLE = {'types.MappingProxyType', 'MappingProxyType'}
+    holders = {}
+    for ci in prog.classes.values():
+        if ci.module.name not in FAMILY_MODULES:
+            continue
+        init = ci.methods.get('__init__')
+        if init is None:
+            continue
+        bad = [x for x in core.walk_local(init) if isinstance(x, (ast.Assign, ast.AnnAssign)) and x.value is not None and isinstance(x.value, ast.Call) and (core.call_name(x.value) or '') in UNPICKLABLE]
+        if bad:
+            holders[ci.name] = (ci, bad[0])
+    k = 0
+    for fn in prog.functions([m for m in prog.modules if m in FAMILY_MODULES]):
+        if not any(d.split('.')[-1] == 'cached_property' for d in core.decorator_names(fn.node)) or fn.node.returns is None:
+            continue
+        k += 1
+        rt = core.src(fn.node.returns)
+        for name, (hc, site) in holders.items():
+            if name in rt.replace("'", '').split('.'):
+                red = any(hc.lookup(m) is not None for m in ('__reduce__', '__reduce_ex__', '__getstate__'))
+                ctx.check(red, 'R-PICKLE', fn, f'{fn.qual} caches a {hc.qual} on the instance (pickled with it); {hc.qual} holds `{core.src(site)[:60]}` and must reduce itself for pickling', site, key=f'cached:{fn.qual}:{hc.qual}')
+    ctx.floor('R-PICKLE.cached', k, 4)
     # copyreg reducers for metaclass-made classes
     fmod = prog.module(FRAME)
     regs = [c for c in ast.walk(fmod.tree) if isinstance(c, ast.Call) and core.call_name(c) == 'copyreg.pickle']
@@ -359,6 +394,11 @@ def identity_repr(ctx, tenv) -> None:
                     funcs.append(prog.func(f'{ci.ref}.{m}'))
     ctx.floor('C08.identity-methods', len(funcs), 30)
     shared.r_truthy(ctx, tenv, funcs, rule='R-TRUTHY')
+    # ... and anywhere else in the DSL: a predicate/feature member tested by truthiness is judged by its *overloaded* __bool__
+    # (Equal is falsy unless its operands are identical), so a present filter/condition is treated as absent and dropped -
+    # two statements differing in that member become one
+    rest = [f for f in prog.functions([m for m in prog.modules if m in FAMILY_MODULES]) if f not in funcs]
+    shared.r_truthy(ctx, tenv, rest, rule='R-TRUTHY')
     # where repr() of a DSL object becomes a key
     users = []
     for ref in ('forml.provider.feed.lazy:Origin.key', 'forml.provider.feed.lazy:_Columns.extract'):
@@ -574,8 +614,78 @@ def eqhash_agreement(ctx, prefixes: tuple[str, ...], rule: str = 'R-EQHASH', flo
     ctx.floor(f'{rule}.classes', n, floor)
 
 
+def eq_total(ctx) -> None:
+    """Equality is total: asking whether a DSL object equals *anything* answers True or False, it does not raise.  The operable
+    equality casts the other operand to a literal first; every ``raise`` reachable from there (bounded call depth, resolved
+    callees) that is not a NotImplementedError / internal AssertionError makes ``==`` against that kind of value an exception - e.g. comparing two
+    queries of which one has no prefilter compares None with a predicate."""
+    from .. import calls as callsmod
+
+    prog = ctx.prog
+    resolver = callsmod.Resolver(prog)
+    eq = prog.func(f'{SERIES}:Operable.__eq__')
+    seen, raises = set(), []
+
+    def walk(fn, depth, path):
+        if fn.ref in seen or depth > 4:
+            return
+        seen.add(fn.ref)
+        for x in core.walk_local(fn.node):
+            if isinstance(x, ast.Raise) and x.exc is not None and 'NotImplemented' not in core.src(x.exc) and 'AssertionError' not in core.src(x.exc) and not any(isinstance(a, ast.ExceptHandler) for a in core.ancestors(x)):
+                raises.append((fn, x, path))
+        for c in core.calls_in(fn.node, deep=False):
+            if core.src(c.func).startswith('Comparison.Pythonic'):
+                continue  # the proxy constructor stores its operands untouched
+            callee = resolver.resolve(fn, c)
+            target = callee.func if callee is not None and getattr(callee, 'func', None) is not None else None
+            if target is None:
+                name = core.call_name(c) or ''
+                res = prog.resolve(fn.module, name, scope=fn.qual.rsplit('.', 1)[0] if '.' in fn.qual else None) if name else None
+                if isinstance(res, core.FuncInfo):
+                    target = res
+                elif isinstance(res, core.ClassInfo) and '__new__' in res.methods:
+                    target = prog.func(f'{res.ref}.__new__')
+            if target is not None and target.module.name in FAMILY_MODULES:
+                walk(target, depth + 1, path + [target.ref.split(':')[1]])
+
+    walk(eq, 0, ['Operable.__eq__'])
+    ctx.floor('C08.eq-total.functions', len(seen), 2)
+    for fn, x, path in raises:
+        ctx.fail('C08.eq-total', fn, f'`{core.src(x)[:70]}` is reachable from the equality of operables ({" -> ".join(path)}): `==` against such a value raises instead of answering False', x, key=f'eq-raises:{fn.qual}:{core.stmt_key(x)}')
+    if not raises:
+        ctx.ok('C08.eq-total', eq, f'no raise reachable from Operable.__eq__ through {sorted(seen)}')
+
+
+def stored_values(ctx) -> None:
+    """What a DSL node stores *is* its identity: every element handed to the tuple constructor is a materialised value - never
+    a generator (object identity, single use, unpicklable).  Generator functions of the family (those containing ``yield``) and
+    generator expressions must be wrapped in tuple()/list()/frozenset() before being stored."""
+    prog = ctx.prog
+    gens = {fn.name for fn in prog.functions([m for m in prog.modules if m in FAMILY_MODULES]) if any(isinstance(x, (ast.Yield, ast.YieldFrom)) for x in core.walk_local(fn.node))}
+    ctx.floor('C08.generators-known', len(gens), 1)
+    n = 0
+    for ci in prog.classes.values():
+        if ci.module.name not in FAMILY_MODULES or '__new__' not in ci.methods:
+            continue
+        new = ci.methods['__new__']
+        local = {}
+        for a in core.walk_local(new):
+            if isinstance(a, ast.Assign) and isinstance(a.targets[0], ast.Name):
+                local[a.targets[0].id] = a.value
+        for c in core.calls_in(new):
+            if not (isinstance(c.func, ast.Attribute) and c.func.attr == '__new__' and isinstance(c.func.value, ast.Call) and core.call_name(c.func.value) == 'super'):
+                continue
+            for a in c.args[1:]:
+                n += 1
+                v = local.get(a.id, a) if isinstance(a, ast.Name) else a
+                lazy = isinstance(v, ast.GeneratorExp) or (isinstance(v, ast.Call) and core.call_tail(v) in gens and core.call_tail(v) not in ('tuple', 'list', 'frozenset'))
+                ctx.check(not lazy, 'C08.stored', ci.ref, f'{ci.qual} stores `{core.src(v)[:60]}`' + (' - a generator: identity by address, usable once, not picklable' if lazy else ''), a, key=f'{ci.qual}:stored:{core.src(a)[:30]}')
+    ctx.floor('C08.stored', n, 20)
+
+
 def structure(ctx) -> None:
     prog = ctx.prog
+    stored_values(ctx)
     fam = [m for m in prog.modules if m in FAMILY_MODULES]
     n = shared.r_operand(ctx, list(prog.functions(fam)))
     ctx.floor('R-OPERAND', n, 25)
@@ -586,6 +696,7 @@ def structure(ctx) -> None:
 def run(ctx) -> None:
     tenv = types.TypeEnv(ctx.prog)
     structure(ctx)
+    eq_total(ctx)
     r_memokey(ctx)
     r_cachedep(ctx)
     native_identity(ctx)
